@@ -336,6 +336,7 @@ func (s *sim) rangeQuery() *core.Violation {
 	}
 
 	t.Logf("%s -> %q (reference matches %d)", q, page, len(matches))
+	s.st.State(core.HashString(q + s.m.describe()))
 
 	if isNil {
 		return viol(p09, "non-nil-result", "Range", cls, "%s returned a nil collection", q)
